@@ -151,16 +151,24 @@ impl<K: AnimationKey> AnimationChainBuilder<K> {
 
 pub(super) fn chain_animations<K: AnimationKey, T: Component>(
     mut events: EventReader<AnimationStateChanged>,
-    mut selector_query: Query<(&mut AnimationSelector<K, T>, &AnimationChain<K>)>,
+    mut selector_query: Query<(&mut AnimationSelector<K, T>, &AnimationChain<K>, &Animator<T>)>,
 ) {
     for ev in events.iter() {
         let AnimationStateChanged { entity, state } = ev;
         if state != &AnimationState::Ended {
             continue;
         }
-        let Ok((mut selector, chain)) = selector_query.get_mut(*entity) else {
+        let Ok((mut selector, chain, animator)) = selector_query.get_mut(*entity) else {
             continue;
         };
+        // The event does not say which animator ended. Only chain when the animator governed by this
+        // selector is the one that just ended, and only for the key whose animation it was playing,
+        // i.e. not when the key was changed (by the user or by an earlier event) in the meantime.
+        if !animator.just_ended
+            || selector.previous_key.as_ref() != Some(&selector.timeline_key)
+        {
+            continue;
+        }
         if let Some(next_key) = chain.next_keys.get(&selector.timeline_key) {
             selector.timeline_key = next_key.clone();
         }
